@@ -5,7 +5,7 @@ import math
 import re
 from .. import gdsgrammar as G, tables, clone
 from ..facts import AnalysisBroken
-from ..flow import lvalue_key, is_assign, _strip_casts
+from ..flow import lvalue_key, is_assign, _strip_casts, pretty_key
 from . import C03
 
 EXPLANATION = ('R-TABLE: every record token any GDSII writer path emits has an explicit arm in read_gds. Field correspondence: per '
